@@ -25,6 +25,20 @@ import (
 	"github.com/semihalev/sdns/middleware"
 )
 
+// vC17ViewSlab is a long-lived transport of the kind the server's UDP engine keeps: one value, one cached *net.UDPAddr whose
+// IP bytes are rewritten in place for every packet ("observers must copy, never retain")
+type vC17ViewSlab struct {
+	vC17Tr
+	udp     net.UDPAddr
+	scratch [16]byte
+}
+
+func (s *vC17ViewSlab) set(ip net.IP, port int) {
+	s.udp.IP, s.udp.Port = append(s.scratch[:0], ip...), port
+	s.addr = &s.udp
+	s.msg = nil
+}
+
 func TestVerifC17ViewsFull(t *testing.T) {
 	p := os.Getenv("VERIF_OUT")
 	if p == "" {
@@ -54,6 +68,13 @@ func TestVerifC17ViewsFull(t *testing.T) {
 		QName string `json:"qname"`
 		QType string `json:"qtype"`
 		vC17Fixed
+		// further clients served, after the entry's own, through the same Views instance on ONE long-lived transport
+		// whose peer address is rewritten in place (the UDP engine's job)
+		Then []struct {
+			Src  string `json:"src"`
+			Form int    `json:"ip_bytes"`
+			Port int    `json:"port"`
+		} `json:"then_on_one_slab"`
 	}
 	if dir := os.Getenv("VERIF_CORPUS"); dir != "" {
 		if raw, err := os.ReadFile(dir + "/viewsfull.json"); err == nil {
@@ -246,66 +267,124 @@ func TestVerifC17ViewsFull(t *testing.T) {
 		}
 		stub := &vStub{}
 		ch := middleware.NewChain([]middleware.Handler{v, stub})
-		req := new(dns.Msg)
-		req.SetQuestion(qname, qtype)
-		ch.Reset(w, req)
-		internal := ch.Writer.Internal()
-		ch.Next(context.Background())
-		answered := "None"
-		var served []string
-		k := "viewsfull-fallthrough"
-		goFail := ""
-		if wr.vC17Written() {
-			view := -1
-			for _, rr := range wr.vC17Msg().Answer {
-				vi, ri := -1, -1
-				switch x := rr.(type) {
-				case *dns.A:
-					vi, ri = int(x.A.To4()[2]), int(x.A.To4()[3])
-				case *dns.AAAA:
-					vi, ri = int(x.AAAA[13]), int(x.AAAA[15])
-				case *dns.TXT:
-					fmt.Sscanf(x.Txt[0], "v%dr%d", &vi, &ri)
+		serve := func(w middleware.Transport, wr vC17Sink, remoteCoq string, rdesc map[string]any, sentinel bool, tag string) {
+			stub.calls = 0
+			req := new(dns.Msg)
+			req.SetQuestion(qname, qtype)
+			ch.Reset(w, req)
+			internal := ch.Writer.Internal()
+			ch.Next(context.Background())
+			answered := "None"
+			var served []string
+			k := "viewsfull-fallthrough"
+			goFail := ""
+			if wr.vC17Written() {
+				view := -1
+				for _, rr := range wr.vC17Msg().Answer {
+					vi, ri := -1, -1
+					switch x := rr.(type) {
+					case *dns.A:
+						vi, ri = int(x.A.To4()[2]), int(x.A.To4()[3])
+					case *dns.AAAA:
+						vi, ri = int(x.AAAA[13]), int(x.AAAA[15])
+					case *dns.TXT:
+						fmt.Sscanf(x.Txt[0], "v%dr%d", &vi, &ri)
+					}
+					if view >= 0 && vi != view && goFail == "" {
+						goFail = "one reply carries records of two views"
+					}
+					view = vi
+					served = append(served, fmt.Sprintf("%d%%nat", ri))
+					if rr.Header().Name != qname && goFail == "" {
+						goFail = "a served record does not carry the question's name"
+					}
 				}
-				if view >= 0 && vi != view && goFail == "" {
-					goFail = "one reply carries records of two views"
+				if len(served) == 0 {
+					goFail = "the view wrote a reply without answers"
 				}
-				view = vi
-				served = append(served, fmt.Sprintf("%d%%nat", ri))
-				if rr.Header().Name != qname && goFail == "" {
-					goFail = "a served record does not carry the question's name"
+				if stub.calls != 0 {
+					goFail = "a view answered and also called the next handler"
 				}
+				answered = fmt.Sprintf("(Some (%d%%nat, [%s]))", view, strings.Join(served, "; "))
+				k = "viewsfull-answered"
+				if view > 0 {
+					k = "viewsfull-answered-by-later-view"
+				}
+			} else if stub.calls != 1 {
+				goFail = fmt.Sprintf("no reply and next handler called %d times", stub.calls)
 			}
-			if len(served) == 0 {
-				goFail = "the view wrote a reply without answers"
+			if sentinel {
+				k += "-sentinel-sweep"
 			}
-			if stub.calls != 0 {
-				goFail = "a view answered and also called the next handler"
+			if fixed {
+				k += "-corpus"
 			}
-			answered = fmt.Sprintf("(Some (%d%%nat, [%s]))", view, strings.Join(served, "; "))
-			k = "viewsfull-answered"
-			if view > 0 {
-				k = "viewsfull-answered-by-later-view"
+			k += tag
+			if internal {
+				k += "-internal"
 			}
-		} else if stub.calls != 1 {
-			goFail = fmt.Sprintf("no reply and next handler called %d times", stub.calls)
+			b, _ := json.Marshal(map[string]any{
+				"k":          k,
+				"coq":        fmt.Sprintf("CaseViewsFull [%s] %s %s %d %s", strings.Join(vcoq, "; "), remoteCoq, vC17CoqBytes(qname), qtype, answered),
+				"go_fail":    goFail,
+				"nontrivial": len(vcoq) > 0,
+				"desc":       map[string]any{"views": vdesc, "remote": rdesc, "question": qname + " " + dns.TypeToString[qtype], "writer_internal": internal, "answered": answered},
+			})
+			f.Write(append(b, '\n'))
 		}
-		if sentinel {
-			k += "-sentinel-sweep"
-		}
+		serve(w, wr, remoteCoq, rdesc, sentinel, "")
+		// The engines' transports are long-lived: ONE job value, bound to its chain again for every packet, whose peer
+		// address is rewritten IN PLACE over a scratch array (udpJob.setRemote). One case in three goes on with a run of
+		// further clients - in other views, in none, the first one again - through the same Views instance, the same chain
+		// and one such transport: every packet is judged by ITS source, whatever the handler saw before.
 		if fixed {
-			k += "-corpus"
+			slab := &vC17ViewSlab{}
+			for step, e := range corpus[c+len(corpus)].Then {
+				a := netip.MustParseAddr(e.Src)
+				ip := net.IP(a.AsSlice())
+				if e.Form == 16 && a.Is4() {
+					b16 := a.As16()
+					ip = net.IP(b16[:])
+				}
+				slab.set(ip, e.Port)
+				coq := fmt.Sprintf("(mk_remote KUdp %s %d None)", vC17CoqIP(ip), e.Port)
+				desc := map[string]any{"remote_addr_type": "*net.UDPAddr (long-lived transport, address rewritten in place)", "ip": fmt.Sprint(ip), "ip_bytes": len(ip), "port": e.Port, "packet_of_run": step}
+				serve(slab, slab, coq, desc, false, "-slab-run")
+			}
 		}
-		if internal {
-			k += "-internal"
+		if !fixed && len(all) > 0 && len(vcoq) > 0 && c%3 == 0 {
+			slab := &vC17ViewSlab{}
+			var first netip.Addr
+			for step := 0; step < 3; step++ {
+				pf := all[r.Intn(len(all))]
+				src := pf.Addr()
+				switch r.Intn(6) {
+				case 0:
+					src = pf.Masked().Addr().Prev()
+				case 1:
+					src = vRandPrefix(r).Addr()
+				case 2:
+					if first.IsValid() {
+						src = first
+					}
+				}
+				if !src.IsValid() {
+					src = netip.MustParseAddr("203.0.113.9")
+				}
+				if step == 0 {
+					first = src
+				}
+				ip := net.IP(src.AsSlice())
+				if src.Is4() && r.Intn(3) == 0 {
+					b16 := src.As16()
+					ip = net.IP(b16[:])
+				}
+				port := 1024 + r.Intn(60000)
+				slab.set(ip, port)
+				coq := fmt.Sprintf("(mk_remote KUdp %s %d None)", vC17CoqIP(ip), port)
+				desc := map[string]any{"remote_addr_type": "*net.UDPAddr (long-lived transport, address rewritten in place)", "ip": fmt.Sprint(ip), "ip_bytes": len(ip), "port": port, "packet_of_run": step}
+				serve(slab, slab, coq, desc, false, "-slab-run")
+			}
 		}
-		b, _ := json.Marshal(map[string]any{
-			"k":          k,
-			"coq":        fmt.Sprintf("CaseViewsFull [%s] %s %s %d %s", strings.Join(vcoq, "; "), remoteCoq, vC17CoqBytes(qname), qtype, answered),
-			"go_fail":    goFail,
-			"nontrivial": len(vcoq) > 0,
-			"desc":       map[string]any{"views": vdesc, "remote": rdesc, "question": qname + " " + dns.TypeToString[qtype], "writer_internal": internal, "answered": answered},
-		})
-		f.Write(append(b, '\n'))
 	}
 }
